@@ -43,6 +43,8 @@ pub fn take_panics() -> Vec<String> {
 
 static SCHED_HASH: AtomicU64 = AtomicU64::new(0xcbf2_9ce4_8422_2325);
 static POLLS: AtomicU64 = AtomicU64::new(0);
+static POLL_LOG_ON: std::sync::atomic::AtomicBool = std::sync::atomic::AtomicBool::new(false);
+static POLL_LOG: Mutex<Vec<(u64, u64)>> = Mutex::new(Vec::new());
 static HANDLE: OnceLock<tokio::runtime::Handle> = OnceLock::new();
 
 struct IdHasher(u64);
@@ -101,6 +103,11 @@ pub fn build_runtime(seed: u64) -> tokio::runtime::Runtime {
                 Ordering::Relaxed,
             );
             POLLS.fetch_add(1, Ordering::Relaxed);
+            if POLL_LOG_ON.load(Ordering::Relaxed) {
+                if let Ok(mut l) = POLL_LOG.lock() {
+                    l.push((id, crate::world::now_ns_or_zero()));
+                }
+            }
         })
         .on_thread_park(wait_blocking_idle)
         .build()
@@ -184,6 +191,9 @@ where
     }
     if let Some(a) = s.alloc_limit {
         crate::shims::ALLOC_BASE_LIMIT.store(a, Ordering::SeqCst);
+    }
+    if std::env::var("DSIM_POLL_LOG").is_ok() {
+        POLL_LOG_ON.store(true, Ordering::Relaxed);
     }
     let rt = build_runtime(seed);
     let (outcome, timed_out, virt_ns) = rt.block_on(async move {
@@ -282,6 +292,14 @@ where
     });
     if status != "ok" || req.tape.is_some() || req.trace {
         report["tape"] = json!(tape);
+    }
+    if let Ok(dir) = std::env::var("DSIM_POLL_LOG") {
+        let l = POLL_LOG.lock().unwrap();
+        let text: Vec<String> = l.iter().map(|(id, t)| format!("{id} {t}")).collect();
+        let _ = std::fs::write(
+            format!("{dir}/polls-{}-{:016x}.txt", req.run_index, SCHED_HASH.load(Ordering::Relaxed)),
+            text.join("\n"),
+        );
     }
     if let Some(tr) = w.trace.take() {
         report["trace"] = json!(tr);
